@@ -82,6 +82,8 @@ func eventClass(ev *journaldb.Event) string {
 	switch {
 	case has["body"] || has["header"]:
 		return "block_batch_write"
+	case has["head_block"]:
+		return "head_batch_write" // number->hash entry and head pointer of a new head, together
 	case has["trie_node"]:
 		return "trie_batch_write"
 	case has["preimage"] && len(has) == 1:
@@ -92,6 +94,19 @@ func eventClass(ev *journaldb.Event) string {
 		return "receipts_batch_write"
 	}
 	return "other_batch_write"
+}
+
+// headWrite returns the value an event writes to the head-block pointer (as a
+// single put or inside a batch flush), if it writes one.
+func headWrite(ev *journaldb.Event) (common.Hash, bool) {
+	var h common.Hash
+	found := false
+	for i := range ev.Ops {
+		if o := &ev.Ops[i]; !o.Del && string(o.Key) == keyLastBlock {
+			h, found = common.BytesToHash(o.Val), true
+		}
+	}
+	return h, found
 }
 
 // midFlush reports whether a batch flush is an intermediate write of a trie
